@@ -33,7 +33,7 @@ SAFE_BUILTINS = {
     'len': len, 'chr': chr, 'ord': ord, 'range': range, 'all': all, 'any': any, 'sorted': sorted, 'min': min, 'max': max,
     'str': str, 'int': int, 'list': list, 'tuple': tuple, 'set': set, 'frozenset': frozenset, 'bool': bool, 'repr': repr,
     'enumerate': enumerate, 'zip': zip, 'reversed': reversed, 'sum': sum, 'isinstance': isinstance, 'type': type,
-    'dict': dict, 'abs': abs, 'OrderedDict': dict,
+    'dict': dict, 'abs': abs, 'OrderedDict': dict, 'float': float, 'round': round, 'divmod': divmod, 'map': map, 'filter': filter,
 }
 SAFE_ATTR_CALLS = {
     're.escape': re.escape, 're.compile': re.compile, 're.match': re.match, 're.fullmatch': re.fullmatch, 're.search': re.search,
@@ -76,8 +76,19 @@ def _is_model(o):
     return isinstance(o, Model) or (isinstance(o, type) and issubclass(o, Model))
 
 
+def _foreign(interp, o):
+    """An object (or the module itself) of a standard-library module the rule has declared safe for this evaluation."""
+    if not interp.safe_modules or o is None:
+        return False
+    if isinstance(o, types.ModuleType):
+        return o.__name__ in interp.safe_modules
+    mod = getattr(type(o), '__module__', '') if not isinstance(o, type) else getattr(o, '__module__', '')
+    return mod in interp.safe_modules
+
+
 class Interp:
     def __init__(self, prog, consts=None):
+        self.safe_modules = set()  # names of standard-library modules whose objects the interpreted code may use (e.g. 'argparse')
         self.extra_names = {}     # bare name -> stand-in value / callable (e.g. a recording print)
         self.extra_calls = {}     # dotted name -> stand-in callable supplied by a rule (e.g. a base-class method of the stdlib)
         self.prog = prog
@@ -314,7 +325,7 @@ class Interp:
             o = self.expr(e.value, env, mod) if not (isinstance(e.value, ast.Name) and e.value.id == 're') else None
             if isinstance(o, tuple) and len(o) == 2 and o[0] == '#classof' and e.attr == '__name__':
                 return o[1].name
-            if _is_model(o):
+            if _is_model(o) or _foreign(self, o):
                 return getattr(o, e.attr)
             if isinstance(o, Obj):
                 if e.attr in o.attrs:
@@ -412,7 +423,7 @@ class Interp:
                 o = self.expr(fn.value, env, mod)
             except Unsupported:
                 raise
-            if _is_model(o):
+            if _is_model(o) or _foreign(self, o):
                 return getattr(o, fn.attr)(*self._py(args), **{k: self._py1(v) for k, v in kwargs.items()})
             if isinstance(o, Obj):
                 if fn.attr in o.attrs:
@@ -456,7 +467,7 @@ class Interp:
             return self.expr(lam.body, env, mod)
         if callable(f) and f in SAFE_BUILTINS.values():
             return f(*self._py(args), **{k: self._py1(v) for k, v in kwargs.items()})
-        if _is_model(f) or getattr(f, '_pyeval_model', False) or any(f is v for v in self.extra_names.values()):
+        if _is_model(f) or _foreign(self, f) or getattr(f, '_pyeval_model', False) or any(f is v for v in self.extra_names.values()):
             return f(*args, **kwargs)
         owner = getattr(f, '__self__', None)
         if callable(f) and owner is not None and not isinstance(owner, types.ModuleType):
